@@ -74,7 +74,8 @@ class SoftwareManager:
         :return: A list of all open ports on the Node.
         """
         open_ports = []
-        for software in self.port_protocol_mapping.values():
+        # every installed item counts: several items may share one (port, protocol) key of port_protocol_mapping
+        for software in self.software.values():
             if software.operating_state in {ApplicationOperatingState.RUNNING, ServiceOperatingState.RUNNING}:
                 open_ports.append(software.port)
                 if software.listen_on_ports:
@@ -177,6 +178,11 @@ class SoftwareManager:
         for key, value in self.port_protocol_mapping.items():
             if value.name == software_name:
                 self.port_protocol_mapping.pop(key)
+                # another installed item may use the same port and protocol: it takes the entry over
+                for other in self.software.values():
+                    if (other.port, other.protocol) == key:
+                        self.port_protocol_mapping[key] = other
+                        break
                 break
         for key, value in self._software_class_to_name_map.items():
             if value == software_name:
